@@ -30,8 +30,12 @@ for p in props:
     cv = ev.get("coverage", {})
     tie = cv.get("translator_tie")
     if isinstance(tie, dict):
-        vals = [str(v.get("status", v) if isinstance(v, dict) else v) for v in tie.values()]
-        tie = "%d/%d intact" % (sum(1 for v in vals if v.startswith("intact")), len(vals))
+        per = {}
+        for k, v in tie.items():
+            if k.startswith("per_") and isinstance(v, dict):
+                per.update(v)
+        vals = [str(v.get("status", v) if isinstance(v, dict) else v) for v in per.values()]
+        tie = ("%d/%d functions intact" % (sum(1 for v in vals if v.startswith("intact")), len(vals))) if vals else str(tie.get("state", "?"))[:40]
     elif tie is None:
         tie = "-"
     else:
